@@ -19,3 +19,19 @@ example : ((combinedWcs w (some (e, [1]))).toOption.map fun c => c.w2p (c.p2w [5
 example : arrayAxisPhysicalTypes w.corr 3 ["a", "b", "c"] = [["b", "c"], ["b", "c"], ["a"]] := by decide
 
 end Ndcube.C06.Witness
+
+namespace Ndcube.C06.Witness2
+open Ndcube
+
+/-- a truthful, well-shaped 2-pixel primary WCS and a 1-pixel extra-coords WCS placed on cube pixel axis 1 -/
+def wp : LLWcs Rat :=
+  { pixDim := 2, worldDim := 2, p2w := fun p => [p.getD 0 0, p.getD 1 0 * 2], w2p := fun _ => [],
+    corr := [[true, false], [false, true]], shape := none }
+def we : LLWcs Rat :=
+  { pixDim := 1, worldDim := 1, p2w := fun p => [p.getD 0 0 + 7], w2p := fun _ => [], corr := [[true]], shape := none }
+
+example : C06.Shaped wp := ⟨rfl, by intro r hr; simp [wp] at hr; rcases hr with rfl | rfl <;> rfl, fun _ => rfl⟩
+example : C06.Shaped we := ⟨rfl, by intro r hr; simp [we] at hr; subst hr; rfl, fun _ => rfl⟩
+example : ((combinedWcs wp (some (we, [1]))).toOption.map (·.corr)) = some [[true, false], [false, true], [false, true]] := by
+  decide
+end Ndcube.C06.Witness2
